@@ -210,9 +210,19 @@ fn make_qp(code: (char, char, char), n: usize, m: usize, t: usize) -> Qp {
                 qi.push((k, n, n, -1.0));
             }
         }
-        bi.push((k, 1 + (k + t) % n, [1.0, -2.0, 0.5][(k + t) % 3]));
-        if n >= 2 && (t + k) % 2 == 0 {
-            bi.push((k, 1 + (k + t + 1) % n, 3.0));
+        // which constraints have linear entries at all: all / all but the last / all but the first / none
+        let bi_pat = (t / 23) % 4;
+        let with_linear = match bi_pat {
+            0 => true,
+            1 => k != m,
+            2 => k != 1,
+            _ => false,
+        };
+        if with_linear {
+            bi.push((k, 1 + (k + t) % n, [1.0, -2.0, 0.5][(k + t) % 3]));
+            if n >= 2 && (t + k) % 2 == 0 {
+                bi.push((k, 1 + (k + t + 1) % n, 3.0));
+            }
         }
         if k >= 2 {
             let s = sides[(t / 3 + k * 3) % 7];
@@ -261,10 +271,11 @@ fn make_qp(code: (char, char, char), n: usize, m: usize, t: usize) -> Qp {
 
 fn layouts() -> Vec<QLayout> {
     vec![
-        QLayout { comments: false, trailing_text: false, lowercase: false },
-        QLayout { comments: true, trailing_text: true, lowercase: false },
-        QLayout { comments: true, trailing_text: false, lowercase: true },
-        QLayout { comments: false, trailing_text: true, lowercase: true },
+        QLayout { comments: false, trailing_text: false, lowercase: false, reversed: false },
+        QLayout { comments: true, trailing_text: true, lowercase: false, reversed: false },
+        QLayout { comments: true, trailing_text: false, lowercase: true, reversed: true },
+        QLayout { comments: false, trailing_text: true, lowercase: true, reversed: false },
+        QLayout { comments: false, trailing_text: false, lowercase: false, reversed: true },
     ]
 }
 
@@ -365,7 +376,7 @@ pub fn run(ctx: &Ctx) -> Finish {
     ctx.assume("Outside the alphabet: well-formed but out-of-range indices (0, > n), upper-triangle entries, repeated entries for the same position.");
     Finish {
         level: "model_checking",
-        rule: "abstract QP models for EACH of the 120 problem-type codes (objective L/D/C/Q x variables C/B/M/I/G x constraints N/B/L/D/C/Q) x sizes (n,m) x a deterministic sweep that visits every value of every content dimension (Q0 diagonal/off-diagonal patterns, default and non-default b0 incl. explicit zero, q0, per-constraint Qi/bi, constraint sides finite / at threshold / beyond threshold / equal, variable bounds likewise, variable types, names, infinity value 1e20 / 50, sense) x layouts (comment lines with ! # %, blank lines, trailing text, lower-case keywords), rendered by the harness's own writer and loaded with qplib::load_file; expected problem computed from the model: objective 1/2 x'Q0x + b0'x + q0 from the lower triangle, one <=0 constraint per finite side, variables; fault files: each type-code character invalid, counts non-numeric / negative / fractional, unparsable numbers, truncation after every line => Err carrying the line number".into(),
+        rule: "abstract QP models for EACH of the 120 problem-type codes (objective L/D/C/Q x variables C/B/M/I/G x constraints N/B/L/D/C/Q) x sizes (n,m) x a deterministic sweep that visits every value of every content dimension (Q0 diagonal/off-diagonal patterns, default and non-default b0 incl. explicit zero, q0, per-constraint Qi/bi (constraints without linear entries: none / the last / the first / all), constraint sides finite / at threshold / beyond threshold / equal, variable bounds likewise, variable types, names, infinity value 1e20 / 50, sense) x layouts (comment lines with ! # %, blank lines, trailing text, lower-case keywords, sparse sections written in ascending or descending index order), rendered by the harness's own writer and loaded with qplib::load_file; expected problem computed from the model: objective 1/2 x'Q0x + b0'x + q0 from the lower triangle, one <=0 constraint per finite side, variables; fault files: each type-code character invalid, counts non-numeric / negative / fractional, unparsable numbers, truncation after every line => Err carrying the line number".into(),
         bounds: json!({"n_max": 5, "m_max": 4, "codes": 120, "sweep": sweep, "layouts": lays.len()}),
         exhaustive: true,
     }
